@@ -116,7 +116,7 @@ func (pe *speer) act(i int) {
 		pe.sendData(i, blk, T, true)
 	case "total":
 		pe.sendData(i, blk, T+7, i%2 == 0)
-	case "sizeplus", "sizeminus", "over", "capmax":
+	case "sizeplus", "sizeminus", "over", "capmax", "forge", "huge", "neg":
 		if blk == nil {
 			pe.c.Send(vh.Msg{ID: vh.MsgExtended, ExtID: pe.utID, Data: vh.Enc(vh.Dict{"msg_type": 2, "piece": i})})
 			return
@@ -169,6 +169,9 @@ func (pe *speer) run(addr string, ih [20]byte) {
 		pe.adv, pe.buf = T+1, append(append([]byte{}, truth...), 0x33)
 	case "sizeminus":
 		pe.adv, pe.buf = T-1, truth[:T-1]
+	case "forge": // a well-formed info dictionary of another torrent, served consistently
+		other := buildTorrent(s.c.Nb, false, int64(s.idx)*7919+int64(pe.p)+424242)
+		pe.adv, pe.buf = len(other.InfoBytes), other.InfoBytes
 	case "over":
 		pe.adv = e2eMaxMeta + 1
 		pe.buf = append(append([]byte{}, truth...), make([]byte, pe.adv-T)...)
@@ -191,6 +194,12 @@ func (pe *speer) run(addr string, ih [20]byte) {
 	hs := vh.Dict{"v": "c13-peer", "m": vh.Dict{"ut_metadata": ourUtMeta}, "metadata_size": pe.adv}
 	sz := pe.adv
 	switch pe.pol {
+	case "huge": // far beyond the cap and beyond 32 bits
+		hs["metadata_size"] = int64(1)<<40 + int64(T)
+		sz = 2000000000
+	case "neg": // negative size: must be treated as "no metadata offered"
+		hs["metadata_size"] = -int64(T)
+		sz = 0
 	case "nometa":
 		hs["m"] = vh.Dict{}
 		sz = 0
